@@ -99,6 +99,7 @@ def gen_plan(rng, run_index, tier, opts):
     env.allow_date_only_zone = True
     env.unicode_names = rng.random() < 0.2
     env.special_floats = rng.random() < 0.3
+    env.date_names = rng.random() < 0.08
     if rng.random() < 0.25:
         env.arr_T = -1          # set to the step count of the home grid below: parameters as plain per-step arrays
     if rng.random() < 0.12:
@@ -229,6 +230,12 @@ def gen_plan(rng, run_index, tier, opts):
     if rng.random() < 0.4:
         n_proc = 1 + sum(1 for s_ in steps if s_["op"] == "restart" or s_.get("fault") == "crash")
         plan["proc_tz"] = [rng.choice(PROC_ZONES) for _ in range(n_proc)]
+    if rng.random() < 0.1:
+        # a price column called after a delivery day (keys are free text)
+        plan["date_like_price_key"] = True
+        specs.rename_price_key(world, rng.choice(specs.PRICE_KEYS), rng.choice(["2021-01-02", "2021-03-01 00:00:00", "2021-06"]))
+    if rng.random() < 0.12:
+        plan["constant_arrays"] = specs.make_arrays_constant(world, rng)
     if rng.random() < 0.2:
         # several objects saved in one document (a list / a dictionary of assets and portfolios): every one of them comes back
         pool = sorted(a_ for a_ in specs.referenced_ids(world, P) if a_[0] == "a")
